@@ -517,6 +517,12 @@ class DiffXReader(object):
                 % length,
                 linenum=self._linenum)
 
+        if not content:
+            # Content sections must at least contain a newline.
+            raise DiffXParseError(
+                'Expected content for the section, but none was found',
+                linenum=self._linenum)
+
         # First, determine the line endings that we're going to be working
         # with.
         if line_endings:
@@ -556,8 +562,14 @@ class DiffXReader(object):
         if encoding and not keep_bytes:
             # We know what this content was encoded with. We can now decode
             # it.
-            content = content.decode(encoding)
-            newline = newline.decode(encoding)
+            try:
+                content = content.decode(encoding)
+                newline = newline.decode(encoding)
+            except UnicodeError as e:
+                raise DiffXParseError(
+                    'The content could not be decoded as "%s": %s'
+                    % (encoding, e),
+                    linenum=self._linenum)
 
         # Validate that the content ends in a newline. This is to ensure that
         # the file was written according to spec.
